@@ -85,6 +85,8 @@ where
                     } else if !tree_newc.subsumes(tree_storec) {
                         normalized.insert(storec);
                     } else {
+                        #[cfg(terohuttunen_proto_vulcan_verif)]
+                        crate::verif_sim::probe("stored_constraint_dropped_as_redundant", 0);
                         dropped.push(storec);
                     }
                 } else {
@@ -93,6 +95,8 @@ where
             }
             self.0 = normalized;
             if redundant {
+                #[cfg(terohuttunen_proto_vulcan_verif)]
+                crate::verif_sim::probe("new_constraint_dropped_as_redundant", 0);
                 dropped.push(newc);
                 return dropped;
             }
